@@ -19,6 +19,7 @@
 (***************************************************************************)
 EXTENDS HttpLex, TLC
 
+CONSTANT Sizes              \* piece sizes explored by Next (model checking bound; Arrive itself takes any n)
 None == 2000000001          \* "no per-request override"
 MaxChunkLine == 64          \* implementation limit on a chunk-size line (incl. CRLF); longer lines are not generated
 
@@ -54,6 +55,10 @@ EvF == <<"F">>
 EvC == <<"C">>
 
 Emit(s, e) == [s EXCEPT !.ev = Append(@, e)]
+(* body data: how the bytes of one message are split over data_received calls is not part of the
+   contract, so consecutive deliveries are kept as one D event *)
+AppendD(ev, data) == IF ev # <<>> /\ ev[Len(ev)][1] = "D" THEN [ev EXCEPT ![Len(ev)][2] = @ \o data]
+                     ELSE Append(ev, EvD(data))
 
 (* the stream is refused: nothing more is delivered, the open message (if any) is told "closed" *)
 Refuse(s, cause, code) ==
@@ -88,7 +93,7 @@ EndBody(s, c) ==
 Take(s, b, n) ==
     LET data == SubSeq(b, s.pos + 1, s.pos + n) IN
     IF s.gz THEN [s EXCEPT !.pos = @ + n, !.owed = @ - n, !.enc = @ \o data]
-    ELSE [Emit(s, EvD(data)) EXCEPT !.pos = @ + n, !.owed = @ - n]
+    ELSE [s EXCEPT !.pos = @ + n, !.owed = @ - n, !.ev = AppendD(@, data)]
 
 -----------------------------------------------------------------------------
 (* the header block *)
@@ -319,7 +324,8 @@ Shutdown ==
     /\ UNCHANGED <<cfg, wire, buf, eof>>
     /\ step' = Obs("shutdown", <<>>)
 
-Next == \/ \E n \in 1..Len(wire) : Arrive(n)
+(* MC bounds the piece sizes: Sizes, or everything that is left *)
+Next == \/ \E n \in 1..Len(wire) : (n \in Sizes \/ n = Len(wire) - Len(buf)) /\ Arrive(n)
         \/ PeerClose
         \/ Respond
         \/ BodyTimeout
@@ -329,8 +335,7 @@ Next == \/ \E n \in 1..Len(wire) : Arrive(n)
 (* properties *)
 
 RangeOf(q) == {q[i] : i \in 1..Len(q)}
-Norm(s) == [s EXCEPT !.ev = <<>>, !.blk = TRUE]           \* reader state without the delivery granularity
-View == <<cfg, wire, buf, eof, Norm(r), Msgs(r.ev)>>
+View == vars                                               \* hides step
 
 TypeOK == /\ r.pos <= Len(buf)
           /\ IsPrefix(buf, wire)
@@ -342,8 +347,7 @@ TypeOK == /\ r.pos <= Len(buf)
 Confluent ==
     (cfg.respond = "sync" /\ ~cfg.btimeout /\ ~cfg.shut) =>
         LET o == OneShot(cfg, buf, eof) IN
-        /\ Msgs(r.ev) = Msgs(o.ev)
-        /\ Norm(r) = Norm(o)
+        r = o
 
 (* C01: a message with both Content-Length and Transfer-Encoding, or an invalid one of either, never finishes *)
 BadFramingNeverFinishes ==
@@ -367,9 +371,9 @@ OneEnd ==
     /\ r.open <=> (ms # <<>> /\ ms[Len(ms)].end = "")
 
 (* C05: what was delivered is a prefix of what the peer sent in full *)
-PrefixOfSent ==
-    LET full == Msgs(OneShot([cfg EXCEPT !.respond = "sync"], wire, TRUE).ev)
-        ms == Msgs(r.ev) IN
+FullParse(c, w) == Msgs(OneShot([c EXCEPT !.respond = "sync"], w, TRUE).ev)
+PrefixOf(full) ==
+    LET ms == Msgs(r.ev) IN
     /\ Len(ms) <= Len(full)
     /\ \A i \in 1..Len(ms) : /\ ms[i].sl = full[i].sl /\ ms[i].hs = full[i].hs
                              /\ IsPrefix(ms[i].body, full[i].body)
